@@ -286,7 +286,6 @@ Lemma Good_init oracle : Good (init bursts oracle).
 Proof.
   destruct (sched_wakes_inv bursts sp_new 0 SI_new eq_refl) as [H1 [_ [H3 _]]].
   split; [|reflexivity]. constructor; cbn [init ch q log idle_chan busy finish buffer acc]; try reflexivity; try assumption.
-  exact I.
 Qed.
 
 Lemma Good_steps n : forall s, Good s -> Good (steps n s).
